@@ -120,6 +120,9 @@ impl Prng {
             self.below(40) as usize
         } else if r < 85 {
             *self.pick(&[75usize, 76, 77, 0xfc, 0xfd, 0xfe, 255, 256, 257])
+        } else if r < 87 && max > 0x10000 {
+            // the three-byte / five-byte length-prefix boundary, where the caller allows objects that large
+            *self.pick(&[0xffffusize, 0x10000, 0x10001])
         } else if r < 95 {
             self.below(600) as usize
         } else {
